@@ -1,5 +1,6 @@
 """Shared generator, driver and Coq printers for the REPP properties C13/C14."""
 import itertools
+import random
 import re
 
 from harness.coqlit import cstr, cZ, copt, clist, app, cbool, cnat
@@ -145,9 +146,38 @@ def gen_cases(rng, tier):
             s = "".join(rng.choice(ALPHA + "ab ") for _ in range(rng.randrange(5, 14)))
             if terminates(p, s, active):
                 cases.append({"k": "repp", "prog": p, "active": active, "s": s, "tokpat": tokpat})
+        # systematically, for every program (choices drawn from a generator of their own so that the
+        # cases above do not depend on them): the program loaded from files with `<` includes under two
+        # different splits, and - when it calls external modules - a constructor default that the
+        # per-call activation overrides, in both directions (also by an empty one)
+        import json
+        lrng = random.Random(json.dumps(p, sort_keys=True))
+        names = sorted(_ext_names(p))
+        pool = extra + lrng.sample([x for x in strings if len(x) >= 2], 6)
+        for s in pool:
+            for fseed in (1, 2):
+                for act in ([names, []] if names else [active]):
+                    if terminates(p, s, act):
+                        cases.append({"k": "repp", "prog": p, "active": act, "s": s, "tokpat": tokpat,
+                                      "files": fseed})
+            if names:
+                for act, ctor2 in (([], names), (names, []), (names[:1], names[-1:])):
+                    if terminates(p, s, act):
+                        cases.append({"k": "repp", "prog": p, "active": act, "s": s, "tokpat": tokpat,
+                                      "ctor_active": ctor2})
     for ng, tmpl in BAD_TEMPLATES:
         cases.append({"k": "badtmpl", "ng": ng, "tmpl": tmpl})
     return cases
+
+
+def _ext_names(items):
+    out = set()
+    for it in items:
+        if it["t"] == "ext":
+            out.add(it["name"])
+        if it["t"] in ("iter", "ext"):
+            out |= _ext_names(it["items"])
+    return out
 
 
 def has_mask(items):
